@@ -64,7 +64,7 @@ def exact_d2(X, cell):
 
 
 def gen_case(rng, quick, nmax=None, force_both=False, spread=False):
-    nmax = nmax or (14 if quick else 40)
+    nmax = nmax or (14 if quick else 30)
     n = rng.randint(1, nmax) if rng.random() < 0.8 else rng.randint(1, 4)
     d = rng.randint(1, 4)
     fam = rng.choice(FAMILIES)
@@ -312,7 +312,7 @@ def features(case, rec):
 
 def run(ctx):
     po = C.proof_obligations(ctx.prop)
-    ncases = 900 if ctx.quick else 8000
+    ncases = 900 if ctx.quick else 5000
     cases, recs = [], []
     for _ in range(ncases):
         cases.append(gen_case(ctx.rng, ctx.quick))
@@ -345,6 +345,7 @@ def run(ctx):
                 cases.append(permuted(base, perm))
                 grp.append(len(cases) - 1)
             perm_groups.append(grp)
+    perm_oracle_only = set(i for grp in perm_groups for i in grp[24:])
     for c in cases:
         recs.append(run_impl(c))
     stats = dict(modes={}, dims={}, families={}, n_hist={}, cells=0, shells={}, scales={}, cut_kinds={},
@@ -352,7 +353,7 @@ def run(ctx):
                  gabriel_right_angle_ties=0, cell_gabriel_tie_cases_to_acceptor=0, distance_tie_cases=0,
                  repeated_weight_cases=0, permutation_inputs=len(perm_groups),
                  permutation_runs=sum(len(g) for g in perm_groups), permutation_equivariance_checked=0,
-                 permutation_skipped_ties=0, inexact_distance_cases=0)
+                 permutation_skipped_ties=0, permutation_runs_oracle_only=0, inexact_distance_cases=0)
     seen, nontrivial = set(), 0
     to_coq, to_acceptor, direct_fail = [], [], []
     for i, (c, r) in enumerate(zip(cases, recs)):
@@ -390,6 +391,9 @@ def run(ctx):
         seen.add(h)
         if c["mode"] == "gabriel" and c["cell"] is not None and ties:
             stats["cell_gabriel_tie_cases_to_acceptor"] += 1
+            to_acceptor.append(i)
+        elif i in perm_oracle_only:
+            stats["permutation_runs_oracle_only"] += 1
             to_acceptor.append(i)
         else:
             to_coq.append(i)
@@ -435,7 +439,8 @@ def run(ctx):
         else:
             rep["note"] = "model and implementation disagree but the tie-aware basin-partition oracle accepts the output"
             C.report_violation(ctx, "correspondence QuickShift model vs implementation broken", rep, found_input=False)
-    # acceptor for periodic Gabriel cases with right-angle ties (float noise decides the edge)
+    # acceptor: periodic Gabriel cases with right-angle ties (float noise decides the edge), and the
+    # permutation runs beyond the first 24 of each input (kept out of Coq to bound the shard count)
     for i in to_acceptor:
         msg = oracle(cases[i], recs[i])
         n_search += 1
